@@ -77,7 +77,7 @@ def nesting_oracle(outcome, tier, seed):
             for sh, data in shapes(fmt, d).items():
                 targets = corpus.FORMATS if tier == "thorough" else [rng.choice(corpus.FORMATS), "json"]
                 for to in dict.fromkeys(targets):
-                    for frm in ([fmt, None] if tier == "thorough" else [fmt]):
+                    for frm in ([fmt, None] if (tier == "thorough" or to == "json") else [fmt]):
                         sched = corpus.random_sched(rng)
                         for mode in ("slice", "reader"):
                             reqs.append({"id": len(reqs), "to": to,
